@@ -32,11 +32,11 @@ class Universe:
 
 
 LAYOUT_UNIVERSE = Universe({
-    "c0": "/vws/R/conftest.py", "c1": "/vws/R/a/conftest.py", "c2": "/vws/R/a/b/conftest.py",
-    "cs": "/vws/R/s/conftest.py", "u": "/vws/R/a/b/test_u.py", "o": "/vws/R/a/b/test_o.py",
-    "m": "/vws/R/a/b/mod_m.py", "h0": "/vws/R/helper0.py", "h1": "/vws/R/a/helper1.py",
-    "h2": "/vws/R/a/b/helper2.py", "hh": "/vws/R/a/helperh.py",
-    "t0": "/vws/R/test_t0.py", "t1": "/vws/R/a/test_t1.py",
+    "c0": "/vws/R/conftest.py", "c1": "/vws/R/sa/conftest.py", "c2": "/vws/R/sa/b/conftest.py",
+    "cs": "/vws/R/s/conftest.py", "u": "/vws/R/sa/b/test_u.py", "o": "/vws/R/sa/b/test_o.py",
+    "m": "/vws/R/sa/b/mod_m.py", "h0": "/vws/R/helper0.py", "h1": "/vws/R/sa/helper1.py",
+    "h2": "/vws/R/sa/b/helper2.py", "hh": "/vws/R/sa/helperh.py",
+    "t0": "/vws/R/test_t0.py", "t1": "/vws/R/sa/test_t1.py",
     "pl": "/vws/plugsrc/plug.py",
     "tp": "/vws/venv/lib/python3.11/site-packages/tp/plugin.py",
 })
